@@ -576,6 +576,7 @@ def h_config_policy(en: int, md: int, ov: bool, cd: bool, imm: int, mut: int, ov
     """
     pre: 0 <= en <= 2 and 0 <= md <= 3 and 0 <= imm <= 2 and 0 <= mut <= 2
     pre: B.get("md") is None or md == B["md"]
+    pre: B.get("ov") is None or ov == B["ov"]
     pre: B.get("explicit_true", True) or (imm != 1 and mut != 1)
     pre: e1 >= D31 and now >= 0 and d1 >= 0
     post: _ == True
